@@ -157,7 +157,8 @@ func c03CmdCase(r *Rand) string {
 	switch name {
 	case "histo":
 		parts = 1
-		sortName = Pick(r, []string{"value", "value", "value", "text", "value:asc", "TEXT:rev", "value:reverse", "text:desc", "Value:DESC"})
+		sortName = Pick(r, []string{"value", "value", "value", "text", "value:asc", "TEXT:rev", "value:reverse", "text:desc", "Value:DESC",
+			"numeric", "numeric", "NUMERIC:desc", "Numeric:rev", "numeric:asc"})
 		if r.Chance(1, 3) {
 			atLeast = r.Range(-1, 4)
 		}
@@ -184,6 +185,15 @@ func c03CmdCase(r *Rand) string {
 	keys := make([]string, r.Range(1, 5))
 	for i := range keys {
 		keys[i] = c03LineKey(r)
+	}
+	if name == "histo" && strings.HasPrefix(strings.ToLower(sortName), "numeric") && !r.Chance(1, 5) {
+		// `--sort numeric` (ByNameSmart): numbers by magnitude ahead of text, equal numbers spelled differently by text
+		pool := []string{"10", "9", "1", "1.0", "1e0", "+1", "-3", "-0", "0", "0x10", "16", "1_0", "1e400", "inf", "-Inf", "nan", "NaN",
+			"abc", "", " 1", "१", "2.50", "2.5", "007", "7", ".5", "5.", "1e-400", "9223372036854775808", "-9223372036854775809"}
+		keys = make([]string, r.Range(1, 8))
+		for i := range keys {
+			keys[i] = Pick(r, pool)
+		}
 	}
 	subs := make([]string, r.Range(1, 4))
 	for i := range subs {
@@ -263,6 +273,12 @@ func c03CmdStats(f []string, st map[string]int) {
 	for _, x := range files {
 		st["cmd.samples"] += len(x)
 	}
+	if f[1] == "histo" && strings.HasPrefix(strings.ToLower(string(UnHex(f[7]))), "numeric") {
+		st["cmd.histo.sortNumeric"]++
+	}
+	if sn := string(UnHex(f[7])); f[1] == "spark" && sn != strings.ToLower(sn) && strings.HasPrefix(strings.ToLower(sn), "value") {
+		st["cmd.spark.valueUpperCase"]++
+	}
 	flags, _ := strconv.Atoi(f[3])
 	if flags&1 != 0 {
 		st["cmd.histo.all"]++
@@ -295,4 +311,7 @@ var c03CmdCorpus = []string{
 	"cmd spark 1,1,1,0 0 20 0 2 56414c5545 00 0 610072003131;6200720035;630072;6300720036",
 	"cmd spark 2,2,1,1 0 20 0 2 56616c75653a64657363 00 0 610072003131;6200720035|630072;6300720036",
 	"cmd spark 1,1,1,0 0 20 0 1 54455854 00 0 610072;620072",
+	// histo --sort numeric: 9 < 10 < 1e400 (+Inf) ahead of text; 1 / 1.0 / 1e0 tie in value and come out by text
+	"cmd histo 2,1,1,0 0 20 0 0 6e756d65726963 00 0 3130;39;616263;312e30;31;316530;6e616e;3165343030;2d33",
+	"cmd histo 1,1,1,0 1 3 0 0 4e554d455249433a64657363 00 0 3130;39;616263;312e30;31",
 }
